@@ -290,14 +290,21 @@ def _r06d(cx, repo, rb):
             if isinstance(c, ast.AugAssign) and isinstance(c.target, ast.Attribute):
                 mut_attrs.add(c.target.attr)
     n_reads = 0
-    for m, q, f in repo.functions({REL}):
-        tainted = {}
+    all_funcs = [f for _m, _q, f in repo.functions({REL})]
+    queue = []          # (function, [nodes that evaluate to a frozen cached list])
+    for f in all_funcs:
         reads = []
         for n in walk_local(f):
             if isinstance(n, ast.Subscript) and isinstance(n.ctx, ast.Load) and isinstance(n.value, ast.Attribute) and n.value.attr == "visited_commits":
                 reads.append(n)
             elif isinstance(n, ast.Call) and isinstance(n.func, ast.Attribute) and n.func.attr in ("get", "values", "items", "pop", "setdefault") and isinstance(n.func.value, ast.Attribute) and n.func.value.attr == "visited_commits":
                 reads.append(n)
+        n_reads += len(reads)
+        if reads:
+            queue.append((f, reads))
+    returned_by = set()
+    while queue:
+        f, reads = queue.pop(0)
         work = list(reads)
         seen = set()
         while work:
@@ -305,8 +312,17 @@ def _r06d(cx, repo, rb):
             if id(r) in seen:
                 continue
             seen.add(id(r))
-            n_reads += r in reads
             p = parent(r)
+            if isinstance(p, ast.Return) and f.name.startswith("_") and not f.name.startswith("__"):
+                # a private helper hands the cached list to its callers: the value is followed into every call site
+                if f.name not in returned_by:
+                    returned_by.add(f.name)
+                    for g in all_funcs:
+                        sites = [c for c in walk_local(g) if isinstance(c, ast.Call) and call_name(c) == f.name]
+                        if sites:
+                            queue.append((g, sites))
+                    cx.note(f"R06d: the cached list is returned by the private helper {f.name}; its call sites are checked like direct reads")
+                continue
             use, ok, detail = _classify_use(r, p, mut_attrs)
             if use == "bind":
                 nm = p.targets[0].id
